@@ -386,3 +386,36 @@ def critical_indices(trace):
         if inside:
             out.add(e['i'])
     return out
+
+
+def replay_case(spec, extra=None):
+    """Re-run the single landing-point case recorded in a replay file and print what happened."""
+    import json
+    w = spec.get('witness', {})
+    if not w.get('cls') or not (w.get('recorded_event') or {}).get('at'):
+        print(json.dumps(spec, indent=1)[:6000])
+        return 0
+    cls, scen = w['cls'], w['scenario']
+    sp, own = scenario_spec(cls, scen)
+    sp.update(extra or {})
+    a = arm_args(cls)
+    sp['action'] = dict(kind='terminate', timeout=8, force=False)
+    sp['wait_timeout'] = 20
+    wd = workdir('replay')
+    kind = w['recorded_event']['at']['kind']
+    events = 'line' if kind == 'line' else 'ebp'
+    res = lpi.act(sp, os.path.join(wd, 'case'), w.get('k', -1), events=events, files=(a['files'] if events == 'ebp' else None),
+                  arm_func=a['arm_func'], arm_cls=a['arm_cls'], arm_caller=a.get('arm_caller'), await_s=3, at=w['recorded_event']['at'])
+    dg = digest(dict(res=res))
+    print('replayed %s / %s at %s' % (cls, scen, w['recorded_event']['at']))
+    print('landing point actually hit:', json.dumps(dg['point'])[:600])
+    print('injector:', dg['injector'])
+    print('terminate():', dg['terminate'])
+    for i, o in enumerate(dg['observations'][:3]):
+        print('observation %d: %s' % (i, json.dumps(o)[:300]))
+    print('marks:', dg['marks'])
+    print('stream:', dg['results'], dg['stream_end'], dg['mux'], dg['mux_end'])
+    print('hangs:', dg['hangs'])
+    print('stderr tail:\n' + res['stderr'][-800:])
+    cleanup(wd)
+    return 0
